@@ -60,6 +60,8 @@ func (e *Engine) unop(instr *ssa.UnOp, x value) value {
 		switch x := x.(type) {
 		case float64:
 			return -x
+		case symfloat:
+			return x
 		case uint64:
 			bits, _, _ := intInfo(instr.X.Type())
 			return mask(-x, bits)
@@ -81,6 +83,12 @@ func (e *Engine) unop(instr *ssa.UnOp, x value) value {
 }
 
 func (e *Engine) binop(op token.Token, t types.Type, x, y value) value {
+	if _, ok := x.(symfloat); ok {
+		e.unsupported("arithmetic/comparison on a float that depends on symbolic bytes")
+	}
+	if _, ok := y.(symfloat); ok {
+		e.unsupported("arithmetic/comparison on a float that depends on symbolic bytes")
+	}
 	// strings
 	switch xs := x.(type) {
 	case string, *symstr:
@@ -432,6 +440,12 @@ func andVal(a, b value) value {
 }
 
 func (e *Engine) conv(tdst, tsrc types.Type, x value) value {
+	if _, ok := x.(symfloat); ok {
+		if b, isB := tdst.Underlying().(*types.Basic); isB && b.Info()&types.IsFloat != 0 {
+			return x
+		}
+		e.unsupported("conversion of a float that depends on symbolic bytes")
+	}
 	ud, us := tdst.Underlying(), tsrc.Underlying()
 	switch ud := ud.(type) {
 	case *types.Pointer, *types.Signature, *types.Map, *types.Chan, *types.Interface, *types.Struct, *types.Array:
